@@ -2,13 +2,14 @@ INIT SimInit
 NEXT SimNext
 CONSTANTS
   N = 2
-  MaxConn = 6
+  MaxConn = 8
   MaxDialFail = 2
   MaxKill = 3
   FixSessErr = FALSE
   FixRet = FALSE
   FixAdd = FALSE
-  Depth = 28
+  Depth = 30
   Loop = FALSE
   AddGate = TRUE
+  MaxHeal = 3
 CHECK_DEADLOCK FALSE
